@@ -92,22 +92,22 @@ func (w *World) load(in *loadInputs, sp loadSpec, rcv *Writer) (*ipfslog.IPFSLog
 	d.Run(func() {
 		switch sp.loader {
 		case ldManifest:
-			l, err = ipfslog.NewFromMultihash(ctx, w.St, rcv.ID, in.manifest, w.logOpts(), &ipfslog.FetchOptions{Concurrency: sp.conc, Length: sp.length})
+			l, err = ipfslog.NewFromMultihash(ctx, w.St, rcv.ID, in.manifest, w.loadOpts(), &ipfslog.FetchOptions{Concurrency: sp.conc, Length: sp.length})
 		case ldJSON:
-			l, err = ipfslog.NewFromJSON(ctx, w.St, rcv.ID, in.json, w.logOpts(), &entry.FetchOptions{Concurrency: sp.conc, Length: sp.length})
+			l, err = ipfslog.NewFromJSON(ctx, w.St, rcv.ID, in.json, w.loadOpts(), &entry.FetchOptions{Concurrency: sp.conc, Length: sp.length})
 		case ldEntries:
 			// the caller's slice may have spare capacity (built with make/append): the library must neither
 			// write into that capacity in a way that disturbs the result nor reorder what the caller passed
 			src := make([]iface.IPFSLogEntry, len(in.heads), len(in.heads)+sp.spare)
 			copy(src, in.heads)
-			l, err = ipfslog.NewFromEntry(ctx, w.St, rcv.ID, src, w.logOpts(), &entry.FetchOptions{Concurrency: sp.conc, Length: sp.length})
+			l, err = ipfslog.NewFromEntry(ctx, w.St, rcv.ID, src, w.loadOpts(), &entry.FetchOptions{Concurrency: sp.conc, Length: sp.length})
 			for i := range in.heads {
 				if src[i] != in.heads[i] {
 					w.R.Violate(w.P.Prop+":caller-slice-modified", "NewFromEntry changed element %d of the slice of entries its caller supplied", i)
 				}
 			}
 		case ldHash:
-			l, err = ipfslog.NewFromEntryHash(ctx, w.St, rcv.ID, in.hash, w.logOpts(), &ipfslog.FetchOptions{Concurrency: sp.conc, Length: sp.length})
+			l, err = ipfslog.NewFromEntryHash(ctx, w.St, rcv.ID, in.hash, w.loadOpts(), &ipfslog.FetchOptions{Concurrency: sp.conc, Length: sp.length})
 		}
 	})
 	w.R.Add("fetch-steps", int64(d.Steps))
@@ -199,7 +199,7 @@ func RunC09(r *Run) {
 
 func (w *World) timeKey(h string) string {
 	e := w.M.Reg[h]
-	return fmt.Sprintf("%012d/%s", e.Time, e.ClockID)
+	return fmt.Sprintf("%020d/%s", e.Time, e.ClockID)
 }
 
 // expectedLimited: supplied entries plus the most recent others in (time, id) order, up to
